@@ -313,13 +313,18 @@ func worldWorkConn(w *World) {
 	held = append(held, lateOffers...)
 	nl := len(lateOffers)
 	lmu.Unlock()
-	orphans := 0
+	orphans, deadHeld := 0, 0
 	for _, cn := range held {
 		c.smu.Lock()
 		mine := c.offClosed[cn]
 		c.smu.Unlock()
 		if mine {
-			continue // the client closed this one itself
+			// the client closed this one itself: the server must still let go of its end once it has found it dead
+			// (simulator's view of the server endpoint; plain transports only)
+			if sc, ok := cn.(*simnet.Conn); ok && !sc.OtherEndClosed() {
+				deadHeld++
+			}
+			continue
 		}
 		if !connPeerClosed(cn) {
 			orphans++
@@ -327,6 +332,9 @@ func worldWorkConn(w *World) {
 	}
 	if orphans > 0 {
 		viol("orphan", "work-conn-parked-after-session-end", "%d of %d work connections (%d offered around teardown) are still open 6 s after the session ended", orphans, len(held), nl)
+	}
+	if deadHeld > 0 {
+		viol("orphan", "dead-work-conn-never-closed-by-server", "%d work connections the client had closed are still held open by the server 6 s after the session ended", deadHeld)
 	}
 	w.SetSample(map[string]any{"pool": pool, "max_pool": maxPool, "mode": mode, "users": nusers, "path": path, "starts": len(starts)})
 	w.Nontrivial()
